@@ -265,6 +265,14 @@ def _nbr2(b):
 _nbr2.__symx_kernel__ = True
 
 
+def _nbr_id(b, block_id=None):
+    """_nbr plus the number of the block it is applied to: a function whose result depends on where the block sits"""
+    return _nbr(b) + block_id[0]
+
+
+_nbr_id.__symx_kernel__ = True
+
+
 def _ov_world(E):
     from . import catalog
 
@@ -319,6 +327,19 @@ def inst_map_overlap(blocks, kind, what):
         bnd = value if kind == "constant" else kind
         depth = {a: (d if a == 0 else 0) for a in range(rank)}
         boundary = {a: (bnd if a == 0 else "none") for a in range(rank)}
+        if what == "untrimmed_sliced":
+            # ... and a slice of it selects the same elements as slicing the overlapped array
+            node = w.space.make(OVm.MapOverlap, p.node, _ident, [depth], [boundary], False, True, {"dtype": "f8"},
+                                _symx_attrs=dict(_meta=np.empty((0,) * rank)))
+            a, b = E.int("a"), E.int("b")
+            out = w.fn(catalog.NC, "new_collection")(node)[E.slice(a, b, None)]
+            m = w.fn(catalog.MT, "_materialize")(out.expr, True)
+            whole, r = run_blocks(E, catalog._layers(m), m._name, out.expr.chunks, label="untrimmed-sliced", kernels=dict(_ident=_ident))
+            ref_node = w.fn("dask_array._overlap", "overlap")(w.fn(catalog.NC, "new_collection")(p.node), depth, boundary).expr
+            m2 = w.fn(catalog.MT, "_materialize")(ref_node, True)
+            ref, _r2 = run_blocks(E, catalog._layers(m2), m2._name, ref_node.chunks, label="overlap")
+            same_array(E, whole, ref[E.slice(a, b, None)], label="slice-of-untrimmed")
+            return
         if what == "untrimmed":
             # map_overlap(identity, ..., trim=False): what comes back is the overlapped array itself, halos included
             node = w.space.make(OVm.MapOverlap, p.node, _ident, [depth], [boundary], False, True, {"dtype": "f8"},
@@ -384,6 +405,17 @@ def inst_map_overlap(blocks, kind, what):
         if what == "identity":
             got = da.map_overlap(lambda b: b, x, depth=depth, boundary=boundary, dtype="f8").compute(scheduler="sync")
             return dict(ok=bool(np.array_equal(got, data)), detail=f"chunks={cs} depth={d} kind={kind}")
+        if what == "untrimmed_sliced":
+            from dask_array._overlap import overlap as _ov
+
+            a, b = values["a"], values["b"]
+            try:
+                y = da.map_overlap(lambda blk: blk, x, depth=depth, boundary=boundary, dtype="f8", trim=False)
+                got = y[a:b].compute(scheduler="sync")
+            except Exception as ex:
+                return dict(ok=False, detail=f"map_overlap(trim=False)[{a}:{b}] raises {ex!r}"[:300])
+            want = _ov(x, depth, boundary).compute(scheduler="sync")[a:b]
+            return dict(ok=bool(np.array_equal(got, want)), detail=f"chunks={cs} depth={d} kind={kind} [{a}:{b}] got={got[:8].tolist()} want={want[:8].tolist()}")
         if what == "untrimmed":
             from dask_array._overlap import overlap as _ov
 
@@ -475,7 +507,7 @@ def _program_instances(tier):
                                   "MapOverlap/OverlapInternal or native kernels", select=lambda name: "sliding_window_view" in name or name.startswith(("gradient(", "cumsum(", "diff(")))
 
 
-def inst_map_overlap_sliced(blocks, kind, depth=None, start=None, hi=None, within_first=False, chunks=None):
+def inst_map_overlap_sliced(blocks, kind, depth=None, start=None, hi=None, within_first=False, chunks=None, by_block=False):
     """map_overlap(f, x, depth, boundary)[a:b] with a window function that reads its right neighbour: the slice the
     optimizer pushes through MapOverlap (halo-expanded window of the input; refused where a periodic halo would wrap)
     selects the same elements as slicing the full result"""
@@ -491,7 +523,7 @@ def inst_map_overlap_sliced(blocks, kind, depth=None, start=None, hi=None, withi
         E.assume(d <= n)
         E.assume(n >= 2)
         reach = 2 if (kind == "periodic" and depth == 2) else 1  # the stencil reads as far as the halo is deep
-        node = w.space.make(OVm.MapOverlap, p.node, _nbr2 if reach == 2 else _nbr, [{0: d}], [{0: kind}], True, True, {"dtype": "f8"},
+        node = w.space.make(OVm.MapOverlap, p.node, _nbr_id if by_block else _nbr2 if reach == 2 else _nbr, [{0: d}], [{0: kind}], True, True, {"dtype": "f8"},
                             _symx_attrs=dict(_meta=np.empty((0,))))
         a, b = (E.int("a") if start is None else start), E.int("b")
         if chunks is not None:
@@ -510,6 +542,14 @@ def inst_map_overlap_sliced(blocks, kind, depth=None, start=None, hi=None, withi
                                                 X._at((idx[0] - 1,)) + X._at((idx[0],)) + X._at((idx[0] + 1,))))
         else:
             full = SArr((n,), lambda idx: Xp._at((idx[0] + _z(d) - reach,)) + Xp._at((idx[0] + _z(d),)) + Xp._at((idx[0] + _z(d) + reach,)))
+        if by_block:
+            # the function also adds the number of the block (of the array map_overlap was called on) an element lies in
+            bounds, acc = [], 0
+            for c in chunks[:-1]:
+                acc += c
+                bounds.append(acc)
+            plain = full
+            full = SArr((n,), lambda idx: plain._at(idx) + z3.Sum([z3.If(idx[0] >= e, z3.RealVal(1), z3.RealVal(0)) for e in bounds]))
         ref = full[E.slice(a, b, None)]
         for stage in ("materialized", "materialized_off"):
             m = catalog.stages(E, w, out.expr, {stage})[stage]
@@ -529,7 +569,9 @@ def inst_map_overlap_sliced(blocks, kind, depth=None, start=None, hi=None, withi
 
         reach = 2 if (kind == "periodic" and depth == 2) else 1
 
-        def f(blk):
+        def f(blk, block_id=None):
+            if by_block:
+                return np.concatenate([blk[:1] + blk[:1], blk[:-2] + blk[1:-1] + blk[2:], blk[-1:] + blk[-1:]]) + block_id[0]
             if reach == 2:
                 return np.concatenate([blk[:2] + blk[:2], blk[:-4] + blk[2:-2] + blk[4:], blk[-2:] + blk[-2:]])
             return np.concatenate([blk[:1] + blk[:1], blk[:-2] + blk[1:-1] + blk[2:], blk[-1:] + blk[-1:]])
@@ -541,6 +583,8 @@ def inst_map_overlap_sliced(blocks, kind, depth=None, start=None, hi=None, withi
                                                                     f"want={full[a:b][:8].tolist()}")
 
     nm = "x".join(map(str, blocks))
+    if by_block:
+        nm += ",function reads block_id"
     return Instance(f"map_overlap_sliced[blocks={nm},boundary={kind},depth={'symbolic' if depth is None else depth},"
                     f"start={'symbolic' if start is None else start},sizes<={hi}{',window in block 0' if within_first else ''}{',chunks=' + str(tuple(chunks)) if chunks else ''}]", body,
                     dict(blocks=blocks, boundary=kind, depth=depth, start=start, max_size=hi), unit="MapOverlap._accept_slice + _lower", api_replay=api, cost=30,
@@ -557,6 +601,8 @@ def instances(tier):
         # whole blocks are culled, so the push fires: start inside the left halo / interior, every stop
         out.append(inst_map_overlap_sliced((3,), kind, depth=2, start=1, chunks=(5, 5, 5)))
         out.append(inst_map_overlap_sliced((3,), kind, depth=2, start=6, chunks=(5, 5, 5)))
+        if kind == "none":
+            out.append(inst_map_overlap_sliced((3,), kind, depth=1, start=4, chunks=(3, 3, 3), by_block=True))
         if not q:
             out.append(inst_map_overlap_sliced((2,), kind))
     for m in ([2, 3, 4] if q else [2, 3, 4, 5]):
@@ -578,6 +624,8 @@ def instances(tier):
     out.append(inst_map_overlap((3,), "none", "identity"))
     for kind in ("none", "periodic", "reflect"):
         out.append(inst_map_overlap((2,), kind, "untrimmed"))
+    for kind in ("none", "reflect"):
+        out.append(inst_map_overlap((2,), kind, "untrimmed_sliced"))
     out.append(inst_map_overlap((2, 2), "periodic", "identity"))
     if not q:
         for kind in ("none", "periodic", "reflect"):
